@@ -7,7 +7,7 @@ RULE = ('real ZMQReceiver / ZMQSender under the scripted simzmq world: 1-4 sourc
         'future requests, CLOSE, OOB, silences around the connection timeout); every third history adversarial; per-item outputs '
         'and state digests compared with the Gallina machines; non-trivial = at least one set returned / one publish; distinct by hash')
 
-PARTIAL = ['C05_outcomes_independent (publisher outcomes with and without the ephemeral requests, simulation) is not proved; the gate-level theorem C05_eph_never_blocks and C05_eph_no_rewind are', "all-or-nothing / non-decreasing ids of ephemeral portions are checked by the implementation-side oracle ('eph:mixed-ids', 'eph:decreasing', 'partial-set:eph'), not yet proved", "balanced publishers: an ephemeral request counts towards 'someone on this branch asked' (by design); the independence theorem is for non-balanced publishers"]
+PARTIAL = ['C05_outcomes_independent (publisher outcomes with and without the ephemeral requests, simulation) is not proved; the gate-level theorem C05_eph_never_blocks and C05_eph_no_rewind are', "one id per ephemeral portion and non-decreasing ids are proved for non-balanced receivers (C01_no_mixed_ids_ephemeral, C05_ephemeral_order_nondecreasing: runs without a publisher restart); completeness of an ephemeral portion for its subscription ('partial-set:eph') is checked by the implementation-side oracle, not proved", "balanced publishers: an ephemeral request counts towards 'someone on this branch asked' (by design); the independence theorem is for non-balanced publishers"]
 
 def main():
     run = vlib.Run('C05')
